@@ -5,8 +5,10 @@ import (
 	"encoding/json"
 	"fmt"
 	"os"
+	"reflect"
 	"regexp"
 	"sort"
+	"strconv"
 	"strings"
 	"testing"
 
@@ -30,7 +32,7 @@ var kf *known.File
 
 func TestMain(m *testing.M) {
 	kf, _ = known.Load(ev.KnownFile())
-	rec.Rule("finite and enumerated completely: every service method, message, field, nested type, enum and enum value of deps_dev.v3 (embedded descriptor of the generated Go package) is compared with its deps_dev.v3alpha counterpart (number, kind, type, cardinality, oneof, JSON name, streaming flags, HTTP binding modulo the version prefix); every declaration parsed from the two committed .proto sources is compared both ways with the embedded descriptors, and the gRPC method tables with the service descriptors; in addition random instances of every v3 message are marshalled and read back as the v3alpha message of the same name (no unknown fields, identical deterministic bytes, identical JSON). One evaluation = one descriptor element compared or one wire round trip. Non-trivial: every descriptor element (each is a distinct obligation); round trips with >= 3 populated fields. Distinct = distinct element path / distinct message bytes.")
+	rec.Rule("finite and enumerated completely: every service method, message, field, nested type, enum and enum value of deps_dev.v3 (embedded descriptor of the generated Go package) is compared with its deps_dev.v3alpha counterpart (number, kind, type, cardinality, oneof, JSON name, streaming flags, HTTP binding modulo the version prefix); every declaration parsed from the two committed .proto sources is compared both ways with the embedded descriptors, and the gRPC method tables with the service descriptors; every tagged field of every generated Go message struct is bound to the descriptor as the generator binds it (tag number and name name a field of the message, the Go field name is the Go spelling of that name, and a value written through the Go field is read back through the descriptor); in addition random instances of every v3 message are marshalled and read back as the v3alpha message of the same name (no unknown fields, identical deterministic bytes, identical JSON). One evaluation = one descriptor element compared or one wire round trip. Non-trivial: every descriptor element (each is a distinct obligation); round trips with >= 3 populated fields. Distinct = distinct element path / distinct message bytes.")
 	rec.Assume("the .proto sources are parsed by a small proto3 parser in the harness (no protoc offline); it covers the subset the two files use")
 	ev.Main(m, rec)
 }
@@ -416,6 +418,115 @@ func TestGRPCBindings(t *testing.T) {
 		if v.sd.Metadata != "api.proto" {
 			report(t, check, elemCase{check, "metadata", "", fmt.Sprint(v.sd.Metadata)}, "ServiceDesc.Metadata is not api.proto", "api.proto")
 		}
+	}
+}
+
+// Oracle 5: the generated Go structs are bound to the descriptor the way the
+// generator binds them: a struct field tagged with field number N and proto
+// name X is the Go spelling of X, X is field N of the message, and a value
+// written through the Go field is what reflection reads for X (and back).
+func goCamelCase(s string) string {
+	var b []byte
+	for i := 0; i < len(s); i++ {
+		c := s[i]
+		switch {
+		case c == '.' && i+1 < len(s) && s[i+1] >= 'a' && s[i+1] <= 'z':
+			// skip
+		case c == '.':
+			b = append(b, '_')
+		case c == '_' && (i == 0 || s[i-1] == '.'):
+			b = append(b, 'X')
+		case c == '_' && i+1 < len(s) && s[i+1] >= 'a' && s[i+1] <= 'z':
+			// skip
+		case c >= '0' && c <= '9':
+			b = append(b, c)
+		default:
+			if c >= 'a' && c <= 'z' {
+				c -= 'a' - 'A'
+			}
+			b = append(b, c)
+			for ; i+1 < len(s) && s[i+1] >= 'a' && s[i+1] <= 'z'; i++ {
+				b = append(b, s[i+1])
+			}
+		}
+	}
+	return string(b)
+}
+
+var tagRE = regexp.MustCompile(`^[a-z0-9]+,([0-9]+),[a-z]+,name=([A-Za-z0-9_]+)`)
+
+func TestGoStructBinding(t *testing.T) {
+	for _, v := range []struct {
+		name string
+		fd   protoreflect.FileDescriptor
+	}{{"v3", pb.File_api_proto}, {"v3alpha", pba.File_api_proto}} {
+		check := "go-struct-binding/" + v.name
+		rec.SetCheck(check)
+		var walk func(ms protoreflect.MessageDescriptors)
+		walk = func(ms protoreflect.MessageDescriptors) {
+			for i := 0; i < ms.Len(); i++ {
+				md := ms.Get(i)
+				walk(md.Messages())
+				if md.IsMapEntry() {
+					continue
+				}
+				mt, err := protoregistry.GlobalTypes.FindMessageByName(md.FullName())
+				if err != nil {
+					report(t, check, elemCase{check, string(md.FullName()), "", ""}, "no Go type registered for the message", "registered")
+					continue
+				}
+				msg := mt.New()
+				rv := reflect.ValueOf(msg.Interface()).Elem()
+				rt := rv.Type()
+				for j := 0; j < rt.NumField(); j++ {
+					sf := rt.Field(j)
+					tag, ok := sf.Tag.Lookup("protobuf")
+					if !ok {
+						continue
+					}
+					m := tagRE.FindStringSubmatch(tag)
+					if m == nil {
+						continue
+					}
+					path := string(md.FullName()) + "." + sf.Name
+					rec.Eval(1)
+					rec.NonTrivial(v.name + "|gostruct|" + path)
+					num, _ := strconv.Atoi(m[1])
+					fd := md.Fields().ByName(protoreflect.Name(m[2]))
+					c := elemCase{check, path, tag, ""}
+					if fd == nil || int(fd.Number()) != num {
+						report(t, check, c, fmt.Sprintf("Go field %s is tagged %q; the message has no field %s with number %d", sf.Name, tag, m[2], num), "tag names a field of the message with that number")
+						continue
+					}
+					if want := goCamelCase(m[2]); want != sf.Name {
+						report(t, check, c, fmt.Sprintf("Go field %s is tagged with proto field %s, whose Go name is %s", sf.Name, m[2], want), "the Go field carries the tag of its own proto field")
+						continue
+					}
+					// a scalar written through the Go field is read by reflection under that name
+					switch sf.Type.Kind() {
+					case reflect.Bool:
+						rv.Field(j).SetBool(true)
+						if !msg.Get(fd).Bool() {
+							report(t, check, c, fmt.Sprintf("true written to Go field %s is not read back as %s through the descriptor", sf.Name, m[2]), "same storage")
+						}
+						rv.Field(j).SetBool(false)
+					case reflect.String:
+						rv.Field(j).SetString("probe-" + sf.Name)
+						if fd.Kind() == protoreflect.StringKind && msg.Get(fd).String() != "probe-"+sf.Name {
+							report(t, check, c, fmt.Sprintf("a string written to Go field %s is not read back as %s through the descriptor", sf.Name, m[2]), "same storage")
+						}
+						rv.Field(j).SetString("")
+					case reflect.Int32, reflect.Int64:
+						rv.Field(j).SetInt(7)
+						if k := fd.Kind(); (k == protoreflect.Int32Kind || k == protoreflect.Int64Kind || k == protoreflect.Sint32Kind || k == protoreflect.Sint64Kind) && msg.Get(fd).Int() != 7 {
+							report(t, check, c, fmt.Sprintf("7 written to Go field %s is not read back as %s through the descriptor", sf.Name, m[2]), "same storage")
+						}
+						rv.Field(j).SetInt(0)
+					}
+				}
+			}
+		}
+		walk(v.fd.Messages())
 	}
 }
 
